@@ -195,8 +195,18 @@ fn discard_case(ctx: &WorkerCtx, rep: &mut WorkerReport, case_seed: u64) {
         drop_driver(b);
         return;
     }
-    // both continue identically
+    // both continue identically; often the very next block is an empty one (nothing re-initialises
+    // the per-block bookkeeping before it is finalised)
     let ext_start = a.log.len();
+    if rng.chance(1, 2) && a.height >= 0 {
+        if rng.chance(1, 2) {
+            w.ts += 5;
+            a.exec(Op::Mine { n: 1, ts: w.ts });
+        } else {
+            let (ts, hash) = w.block_ctx(&a);
+            a.exec(Op::Finalise { ts, hash, count: 0 });
+        }
+    }
     grow(&mut w, &mut a, 2, CommitPolicy::Never, &mut rng);
     let ext: Vec<(Op, crate::rpc::Resp)> = a.log[ext_start..].to_vec();
     for (op, ra) in &ext {
@@ -243,7 +253,7 @@ pub fn worker(ctx: &WorkerCtx) -> WorkerReport {
     crate::setup_env(net, traces);
     let mut rep = WorkerReport::default();
     let mut rng = ctx.rng();
-    let (n_sched, n_discard, blocks) = if ctx.thorough() { (6, 14, 14) } else { (1, 2, 8) };
+    let (n_sched, n_discard, blocks) = if ctx.thorough() { (6, 16, 14) } else { (1, 4, 8) };
     for _ in 0..n_sched {
         let cs = rng.next();
         schedule_case(ctx, &mut rep, cs, blocks);
